@@ -152,6 +152,7 @@ func (p *Program) verifyFunc(t *target) (vc *VC, rep *FuncReport) {
 		x.knownRef(st, v)
 		vc.inputs = append(vc.inputs, v.T)
 		x.entry[id.Name] = v
+		x.entry["arg_"+id.Name] = v // also when a result name (res, err) hides the parameter's own name
 		if x.boxed[obj] {
 			x.setVar(st, obj, v)
 		} else {
@@ -349,6 +350,11 @@ func (p *Program) verifyFunc(t *target) (vc *VC, rep *FuncReport) {
 			if len(conj) > 1 {
 				name += fmt.Sprintf(".%d", j+1)
 			}
+			if c.Opts["assume_post"] {
+				// the postconditions are ASSUMED for callers (listed as such); the body is checked for everything else:
+				// call-site assertions, preconditions of callees, loop clauses, safety
+				continue
+			}
 			x.assertNamed(final, name+suffix, "post", g, exprText(cj), token.Position{Filename: en.File, Line: en.Line})
 			if len(vc.obls) > 0 && len(lemmaHyps) > 0 {
 				vc.obls[len(vc.obls)-1].Extra = append([]string{}, lemmaHyps...)
@@ -410,7 +416,7 @@ func (p *Program) verifyFunc(t *target) (vc *VC, rep *FuncReport) {
 		}
 	}
 	// frame: everything outside the modifies clause is unchanged (for objects that existed at entry)
-	if len(x.returns) > 0 && !c.Opts["lockhavoc"] {
+	if len(x.returns) > 0 && !c.Opts["lockhavoc"] && !c.Opts["assume_post"] {
 		// (with lockhavoc the guarded fields change "by themselves" at lock acquisition: no frame claim)
 		x.frameObligations(final, entrySnap, c)
 	}
